@@ -48,6 +48,12 @@ def _params():
     return SSEParameters(url=BASE, timeout=TIMEOUT)
 
 
+# raw (unescaped) characters that str.splitlines() treats as line ends but the event-stream grammar does not
+SEPS = "a\u2028b\u2029c\u0085d"
+# texts that look like an endpoint announcement to a careless reader of an untyped event
+PATHY = ["see /messages/ for more", "docs at /mcp", "http://x/mcp?a=1"]
+
+
 def ev(obj) -> str:
     return "event: message\ndata: " + json.dumps(obj, ensure_ascii=False) + "\n\n"
 
@@ -222,7 +228,7 @@ def run_request(ctl: explorer.Ctl, cfg: Dict[str, Any]) -> Dict[str, Any]:
     srv.stream.feed(ENDPOINT_FORMS["abs-path"][0].encode())
     mode = cfg["mode"]
     rid = RIDS[cfg["id"]]
-    resp = {"jsonrpc": "2.0", "id": rid, "result": {"ok": True, "n": None}}
+    resp = {"jsonrpc": "2.0", "id": rid, "result": {"ok": True, "n": None, "t": SEPS, "where": PATHY[0] + " " + PATHY[2]}}
     info: Dict[str, Any] = {"t_post_done": None, "t_event": None}
     actions: List[str] = {
         "200-body": ["post200"], "202+event": ["post202", "event"], "202-silence": ["post202"],
@@ -235,9 +241,12 @@ def run_request(ctl: explorer.Ctl, cfg: Dict[str, Any]) -> Dict[str, Any]:
         st["scheduled"] = False
         if action == "event":
             info["t_event"] = loop.time()
-            srv.stream.feed(ev(resp).encode())
+            text = ev(resp)
+            if cfg.get("untyped"):
+                text = text.replace("event: message\n", "")     # the default event type applies
+            srv.stream.feed(text.encode())
         elif action == "note":
-            srv.stream.feed(ev({"jsonrpc": "2.0", "method": "notifications/message", "params": {"d": 1}}).encode())
+            srv.stream.feed(ev({"jsonrpc": "2.0", "method": "notifications/message", "params": {"d": 1, "t": SEPS + PATHY[1]}}).encode())
         else:
             info["t_post_done"] = loop.time()
             if action == "post200":
@@ -427,12 +436,13 @@ def chunk_stream(variant: str) -> bytes:
             return f"data: {data}{nl}{nl}"  # no event field: the default type "message" applies
         return f"event: {name}{nl}data: {data}{nl}{nl}"
 
-    n1 = {"jsonrpc": "2.0", "method": "n/1", "params": {"t": "é\U0001F600"}} if short else \
-        {"jsonrpc": "2.0", "method": "notifications/message", "params": {"data": "é€\U0001F600 first"}}
+    n1 = {"jsonrpc": "2.0", "method": "n/1", "params": {"t": "é\U0001F600\u2028"}} if short else \
+        {"jsonrpc": "2.0", "method": "notifications/message", "params": {"data": "é€\U0001F600 first " + SEPS + " " + PATHY[0]}}
     r = {"jsonrpc": "2.0", "id": "srv-1", "result": {"x": 1}} if short else \
-        {"jsonrpc": "2.0", "id": "srv-1", "result": {"text": "response ü", "n": None}}
+        {"jsonrpc": "2.0", "id": "srv-1", "result": {"text": "response ü " + SEPS, "n": None, "uri": PATHY[2]}}
     n2 = {"jsonrpc": "2.0", "method": "n/2"} if short else \
-        {"jsonrpc": "2.0", "method": "notifications/progress", "params": {"progressToken": "t", "progress": 2}}
+        {"jsonrpc": "2.0", "method": "notifications/progress", "params": {"progressToken": "t", "progress": 2,
+                                                                          "message": PATHY[1]}}
     text = e("endpoint", "/messages/?session_id=abc") + e("message", json.dumps(n1, ensure_ascii=False)) + \
         e("message", json.dumps(r, ensure_ascii=False)) + e("message", json.dumps(n2, ensure_ascii=False))
     return text.encode("utf-8"), [n1, r, n2]
@@ -490,7 +500,7 @@ def run_chunks(ctl: explorer.Ctl, cfg: Dict[str, Any]) -> Dict[str, Any]:
     elif not (len(norm) == len(expected) and all(strict_eq(a, b) for a, b in zip(norm, expected))):
         cls = "chunking-lost-message" if len(norm) < len(expected) else (
             "chunking-duplicated-message" if len(norm) > len(expected) else "chunking-altered-message")
-        viol.append({"sig": {"class": cls, "cut": _cut_kind(data, cuts)},
+        viol.append({"sig": {"class": cls, "cut": _cut_kind(data, cuts), "events": "untyped" if "untyped" in cfg["variant"] else "typed"},
                      "msg": f"variant={cfg['variant']} cuts={cuts}: delivered {norm}, expected {expected}"})
     if errors:
         viol.append({"sig": {"class": "loop-error"}, "msg": f"{errors[:2]}"})
@@ -509,6 +519,168 @@ def _cut_kind(data: bytes, cuts: List[int]) -> str:
         else:
             kinds.add("plain")
     return "+".join(sorted(kinds)) or "uncut"
+
+
+# ---------------------------------------------------------------------------
+# (3b) two connections alive at once: each must behave as it does alone
+# ---------------------------------------------------------------------------
+RUN_TWO = "vf.checks.c12:run_two"
+TWO_SCENARIOS = ["both-answered", "x-leaves-then-y-answered", "x-leaves-then-y-silent", "x-answered-then-leaves-then-y-answered",
+                 "both-silent"]
+TWO_IDS = {"same-str": ("a", "a"), "same-int": (7, 7), "str-vs-digits-int": ("7", 7), "different": ("x-1", "y-1")}
+
+
+def run_two(ctl: explorer.Ctl, cfg: Dict[str, Any]) -> Dict[str, Any]:
+    from chuk_mcp.protocol.messages.json_rpc_message import JSONRPCRequest
+    from chuk_mcp.transports.sse.parameters import SSEParameters
+    from chuk_mcp.transports.sse.sse_client import sse_client
+
+    scenario = cfg["scenario"]
+    rids = dict(zip("XY", TWO_IDS[cfg["ids"]]))
+    loop = new_loop(horizon=120)
+    q = seams.Quiescence(loop)
+    hosts = {"X": "http://sse-x.test", "Y": "http://sse-y.test"}
+    srv = {c: Server(loop, {"kind": "ok"}) for c in "XY"}
+    for c in "XY":
+        srv[c].stream.feed(f"event: endpoint\ndata: /messages/?session_id={c.lower()}\n\n".encode())
+    streams: Dict[str, Any] = {}
+    entered = {c: None for c in "XY"}
+    leave = {c: None for c in "XY"}
+    got: Dict[str, List[Any]] = {"X": [], "Y": []}
+    order: List[str] = []
+    info: Dict[str, Any] = {"left": []}
+
+    def handler(rec):
+        for c in "XY":
+            if rec.url.startswith(hosts[c]):
+                return srv[c].handler(rec)
+        return httpx.Response(500, content=b"unknown host")
+
+    def payload(c):
+        return {"jsonrpc": "2.0", "id": rids[c], "result": {"who": c, "t": SEPS}}
+
+    async def conn(c):
+        async with sse_client(SSEParameters(url=hosts[c], timeout=TIMEOUT)) as (read, write):
+            streams[c] = (read, write)
+            entered[c].set_result(None)
+            await leave[c]
+            got[c].extend(dump_msg(m) for m in drain(read))
+        info["left"].append(c)
+
+    def collect():
+        for c in "XY":
+            if c in streams and c not in info["left"]:
+                got[c].extend(dump_msg(m) for m in drain(streams[c][0]))
+
+    async def act(a):
+        order.append(a)
+        kind, c = a[:-1], a[-1]
+        if kind == "ack":
+            srv[c].complete_post(0, {"kind": "status", "status": 202})
+        elif kind == "event":
+            srv[c].stream.feed(ev(payload(c)).encode())
+        elif kind == "leave":
+            collect()
+            leave[c].set_result(None)
+            await tasks[c]
+        await q.settle()
+        collect()
+
+    tasks: Dict[str, Any] = {}
+
+    async def main():
+        with patched_httpx(handler):
+            for c in "XY":
+                entered[c] = loop.create_future()
+                leave[c] = loop.create_future()
+                tasks[c] = asyncio.ensure_future(conn(c))
+                await entered[c]
+            for c in "XY":
+                await streams[c][1].send(JSONRPCRequest(id=rids[c], method="tools/list", params={"from": c}))
+            await q.settle()
+            if not (srv["X"].posts and srv["Y"].posts):
+                raise core.HarnessError("two-connections: a request was not POSTed")
+            if scenario == "both-answered":
+                # every order of {202 for X, 202 for Y, answer event on X's stream, answer event on Y's stream}
+                rest = ["ackX", "ackY", "eventX", "eventY"]
+                while rest:
+                    a = rest.pop(ctl.choose(len(rest), "next-action") if len(rest) > 1 else 0)
+                    await act(a)
+            else:
+                await act("ackX")
+                await act("ackY")
+                if scenario == "x-answered-then-leaves-then-y-answered":
+                    await act("eventX")
+                if scenario.startswith("x-"):
+                    await act("leaveX")
+                if scenario.endswith("y-answered"):
+                    await act("eventY")
+            # let every timer of the transports run out (a silent server ends in the transport's own timeout error)
+            await asyncio.sleep(TIMEOUT + 0.5)
+            await q.settle()
+            collect()
+            for c in "XY":
+                if not leave[c].done():
+                    leave[c].set_result(None)
+            await asyncio.gather(*tasks.values())
+
+    status, val = loop.run_main(main())
+    errors = loop.collect_errors()
+    loop.abandon()
+    viol: List[dict] = []
+
+    def bad(cls, msg, **extra):
+        viol.append({"sig": {"class": cls, "scenario": scenario, "ids": cfg["ids"], **extra},
+                     "msg": f"scenario={scenario} ids X={rids['X']!r} Y={rids['Y']!r} actions={order}: {msg}; "
+                            f"X read {got['X']}; Y read {got['Y']}"})
+
+    if status != "ok":
+        if isinstance(val, core.HarnessError):
+            raise val
+        bad("did-not-finish", f"{status} {core.clean_repr(val)}")
+        return {"outcome": status, "violations": viol}
+    # what each connection reads when it is alone: the server's answer if its event was sent while it was alive,
+    # otherwise (the server stayed silent after the 202) exactly one error carrying the request's id
+    answered = {c: f"event{c}" in order for c in "XY"}
+    summary = []
+    for c in "XY":
+        rid = rids[c]
+        mine = [m for m in got[c] if isinstance(m, dict) and "method" not in m]
+        own = [m for m in mine if type(m.get("id")) is type(rid) and m.get("id") == rid]
+        foreign = [m for m in mine if isinstance(m.get("result"), dict) and m["result"].get("who") not in (None, c)]
+        left_pending = c == "X" and scenario in ("x-leaves-then-y-answered", "x-leaves-then-y-silent")
+        if foreign:
+            bad("message-of-the-other-connection", f"connection {c} read the other connection's payload {foreign}", connection=c)
+        if len(mine) != len(own):
+            bad("foreign-or-retyped-id", f"connection {c} read responses whose id is not its request's: {mine}", connection=c)
+        if left_pending:
+            # the context was left with the request pending: nothing or one terminal are both fine
+            if len(own) > 1:
+                bad("duplicate-terminal", f"connection {c}: {own}", connection=c)
+            summary.append(f"{c}:left-pending:{len(own)}")
+            continue
+        if len(own) != 1:
+            bad("no-terminal-message" if not own else "duplicate-terminal",
+                f"connection {c} got {len(own)} terminal messages for its request; alone it gets exactly one", connection=c,
+                other_connection="left" if c == "Y" and "leaveX" in order else "alive")
+            summary.append(f"{c}:{len(own)}")
+            continue
+        m = own[0]
+        if answered[c]:
+            if not strict_eq(m.get("result"), payload(c)["result"]):
+                bad("wrong-terminal", f"connection {c} was answered {payload(c)['result']}, it read {m}", connection=c)
+            summary.append(f"{c}:answer")
+        else:
+            if "error" not in m or classify(m)[0] != "error":
+                bad("silence-not-reported-as-error", f"connection {c}: {m}", connection=c)
+            summary.append(f"{c}:timeout-error")
+    if errors:
+        bad("loop-error", f"{errors[:2]}")
+    return {"outcome": "/".join(summary), "order": order, "violations": viol}
+
+
+def two_configs() -> List[Dict[str, Any]]:
+    return [{"scenario": sc, "ids": i} for sc in TWO_SCENARIOS for i in TWO_IDS]
 
 
 # ---------------------------------------------------------------------------
@@ -650,6 +822,8 @@ def configs_for(tier: str):
     for mode in ("200-body", "202+event", "202-silence", "500", "200-nonjson", "exception", "202+event+note"):
         for idk in RIDS:
             req.append({"mode": mode, "id": idk, "rich": mode != "202+event+note" or tier == "thorough"})
+            if mode == "202+event":
+                req.append({"mode": mode, "id": idk, "rich": False, "untyped": True})
     chunks = []
     for variant in ("long-lf", "long-crlf", "long-lf-untyped", "long-crlf-untyped"):
         data, _ = chunk_stream(variant)
@@ -686,7 +860,8 @@ def run(tier: str, only=None) -> core.Result:
              for l in ("server-request", "stray-response", "notification") for i in RIDS]
     for name, ref, cfgs in (("establishment", RUN_EST, est), ("request-life-cycle", RUN_REQ, req),
                             ("traffic-after-a-finished-request", RUN_AFTER, after),
-                            ("event-stream-chunking", RUN_CHUNK, chunks), ("exit-paths", RUN_EXIT, exits)):
+                            ("event-stream-chunking", RUN_CHUNK, chunks), ("two-connections-alive", RUN_TWO, two_configs()),
+                            ("exit-paths", RUN_EXIT, exits)):
         if only and name not in only:
             continue
         out = explorer.explore(ref, cfgs, fidelity=True)
@@ -703,7 +878,11 @@ def run(tier: str, only=None) -> core.Result:
         "request life-cycle: modes {200 body, 202+event in both orders, 202 and silence, 500, non-JSON 200, exception, 202+event+notification} "
         "x ids {string, digit string, integer} x every order of {POST completes, event arrives, notification} x every placement from the "
         "time menu (relative to the transport's own timers); chunking: every single cut of the long LF and CRLF streams, pairs of cuts on "
-        "the short ones (thorough: all pairs, byte-at-a-time); exit: 4 exit paths x 4 moments x 2 cancellation delivery orders"
+        "the short ones (thorough: all pairs, byte-at-a-time), payloads with raw U+2028 / U+2029 / U+0085 and endpoint-looking texts "
+        "(/messages/, /mcp, http://x/mcp?a=1) in typed and untyped events; two connections alive at once (own hosts, own event "
+        "streams), one request pending on each with the same / different ids: every order of {202 for X, 202 for Y, answer event "
+        "on X, answer event on Y}; X leaves while Y is pending and Y is then answered / stays silent until the timeout; both silent "
+        "- each connection must read exactly what it reads alone (its own connection-specific payload or one timeout error); exit: 4 exit paths x 4 moments x 2 cancellation delivery orders"
     )
     res.assumptions = [
         "a response event arriving after the transport already synthesised its timeout error is outside the statement's modes: one or two messages are accepted then",
